@@ -53,6 +53,9 @@ NAMES = {}
 ORDER_SENSITIVE = {"history_probe"}
 # implementation-side variants of a call (asked after other uses of the same text / of a twin, through an instance instead
 # of a str, with empty components omitted, with a BBAN object of another country): the model answers the plain question
+# harness functions that patch module attributes while they run (a scratch registry directory, a logging xeger): they cannot
+# be run concurrently with each other
+NOT_CONCURRENT = {"registry_get", "random", "spec_random", "history_probe"}
 VARIANT_SUFFIXES = ("_after", "_inst", "_partial", "_bbanobj")
 
 
@@ -232,6 +235,13 @@ def c01_inputs(ctx):
     for cc in (countries(ctx) if not ctx.quick else rng.sample(countries(ctx), 4)):
         for t in insertions(ctx, valid_iban(ctx, cc), probes):
             yield t, "insertion", True
+    # labels and punctuation people put around the number: none of it is white space
+    for cc in (countries(ctx) if not ctx.quick else rng.sample(countries(ctx), 3)):
+        v = valid_iban(ctx, cc)
+        for pre in ("IBAN", "IBAN ", "IBAN:", "iban: ", "IBAN-Nr. ", "BIC ", "Konto ", "No. ", "(", "\"", "<"):
+            yield pre + v, "decorated", True
+        for suf in (" EUR", ".", ",", ";", ")", "\"", " (IBAN)", "/", ">"):
+            yield v + suf, "decorated", True
     # long only because of white space
     for cc in (countries(ctx) if not ctx.quick else rng.sample(countries(ctx), 4)):
         v = valid_iban(ctx, cc)
@@ -316,6 +326,16 @@ def c02_streams(ctx):
                 yield Case("prop", "spec_from_bban", [enc(cc), enc(b)], "from_bban-iban-like", True)
                 yield Case("corr", "iban_from_bban", [enc(cc), enc(b), "0", "0"], "from_bban-iban-like", True)
                 yield Case("corr", "iban_from_bban", [enc(cc), enc(b), "1", "0"], "from_bban-iban-like", True)
+    # BBANs that begin with a word people write in front of such numbers, where the structure admits the letters
+    for cc in countries(ctx):
+        row = ctx.facts["iban_rows"][cc]
+        kinds = "".join(k * cnt for cnt, _b, k in parse_structure(row["bban_spec"]))
+        for word in ("IBAN", "BIC", "BBAN", "SWIFT", "KONTO", "ACCT"):
+            if len(kinds) > len(word) and all(k in "ac" for k in kinds[:len(word)]):
+                b = word + random_bban(ctx, cc)[len(word):]
+                yield Case("prop", "spec_from_bban", [enc(cc), enc(b)], "from_bban-word-head", True)
+                yield Case("corr", "iban_from_bban", [enc(cc), enc(b), "0", "0"], "from_bban-word-head", True)
+                yield from both("iban_new", "spec_iban_accept", [enc(cc + iso_digits(cc, b) + b), "0", "0"], "word-head", True)
     # BBANs whose computed check digits are 02 / 97 / 98: the aliases 99 / 00 / 01 leave remainder 1 too
     for cc in (countries(ctx) if not ctx.quick else rng.sample(countries(ctx), 40)):
         for _ in range(600):
@@ -542,6 +562,24 @@ def variant(ctx, t):
 
 def c10_streams(ctx):
     rng = ctx.rng
+    # white space and case in the ARGUMENTS of generate / from_components / from_bank_code / candidates
+    for cc in (countries(ctx) if not ctx.quick else rng.sample(countries(ctx), 12) + ["GB", "FR", "IT", "ES", "DE"]):
+        row = ctx.facts["iban_rows"][cc]
+        pos = row.get("positions") or {}
+        if not pos:
+            continue
+        w = {k: pos.get(k, [0, 0])[1] - pos.get(k, [0, 0])[0] for k in ("bank_code", "branch_code", "account_code")}
+        bk, ac, br = [component_values(ctx, cc, k, w[k])[0] if w[k] else "" for k in ("bank_code", "account_code", "branch_code")]
+        combos = [(bk, ac, br)]
+        if w["branch_code"]:
+            combos.append((bk + br, ac, ""))                      # the combined notation
+        for x in combos:
+            for _ in range(2 if ctx.quick else 6):
+                y = tuple(variant(ctx, v) if v else v for v in x)
+                yield Case("prop", "spec_variant_same_api", [enc(cc)] + [enc(v) for v in x] + [enc(v) for v in y], "api-argument-variants", True)
+            ws = chr(rng.choice(ctx.facts["ws"]))
+            y = (x[0][:len(bk)] + ws + x[0][len(bk):], x[1], x[2]) if len(x[0]) > len(bk) else (x[0] + ws * max(w["branch_code"], 1), x[1], x[2])
+            yield Case("prop", "spec_variant_same_api", [enc(cc)] + [enc(v) for v in x] + [enc(v) for v in y], "api-argument-variants", True)
     n = 150 if ctx.quick else 4000
     for _ in range(n):
         t = random_text(ctx)
@@ -573,6 +611,10 @@ def c10_streams(ctx):
 def c11_streams(ctx):
     rng = ctx.rng
     names = ";".join(enc(x) for x in ctx.facts["components"])
+    # building for every country (also those without published positions, where it is refused) before decomposing
+    for cc in countries(ctx):
+        yield Case("corr", "generate", [enc(cc), enc("1"), enc("1"), enc("")], "generate-before-decomposing", True)
+        yield Case("corr", "from_components", [enc(cc), enc(""), enc(""), enc("1")], "generate-before-decomposing", True)
     n = 2 if ctx.quick else 12
     for cc in countries(ctx):
         for _ in range(n):
@@ -1074,6 +1116,17 @@ def generated_post(cc):
 
 def c09_streams(ctx):
     rng = ctx.rng
+    # the check-digit component supplied as well (wrong, right, empty): what is built is nationally valid all the same
+    for cc in sorted(COMPUTING):
+        row = ctx.facts["iban_rows"].get(cc)
+        pos = (row or {}).get("positions") or {}
+        if "national_checksum_digits" not in pos:
+            continue
+        w = {k: pos.get(k, [0, 0])[1] - pos.get(k, [0, 0])[0] for k in ("bank_code", "branch_code", "account_code", "national_checksum_digits")}
+        for _ in range(2 if ctx.quick else 10):
+            bk, ac, br = [component_values(ctx, cc, k, w[k])[0] if w[k] else "" for k in ("bank_code", "account_code", "branch_code")]
+            for nat in (component_values(ctx, cc, "national_checksum_digits", w["national_checksum_digits"])[0], "0" * w["national_checksum_digits"], ""):
+                yield Case("prop", "spec_components_national", [enc(cc), enc(bk), enc(ac), enc(br), enc(nat)], "supplied-check-digits", True)
     # other spellings of the country code: whatever generate makes of them, what it returns must be nationally valid
     for cc in sorted(COMPUTING):
         row = ctx.facts["iban_rows"].get(cc)
@@ -1240,6 +1293,12 @@ def hashseed_sweep(ctx):
 
 
 def c13_streams(ctx):
+    # plain seeded draws (nothing patched): compared with themselves in the opposite order, under -OO, from several threads and
+    # under interleavings - equally seeded draws agree whatever else is going on
+    rng = ctx.rng
+    for cc in rng.sample(countries(ctx), 6 if ctx.quick else 40) + ["", "DE", "NO"]:
+        for kind in ("bban", "iban"):
+            yield Case("self", "random_plain", [kind, enc(cc), rng.choice("10"), "-", str(rng.randrange(10 ** 6))], "seeded-draw", True)
     for cc, ur, pins, seed in c13_cases(ctx):
         for kind in ("bban", "iban"):
             args = [kind, enc(cc), ur, pins_str(pins), str(seed)]
@@ -1282,6 +1341,18 @@ def c14_pairs(ctx):
     pairs.append(({"kind": "generate", "cc": "DE", "bank": "43060967", "account": "532013000"},
                   {"kind": "iban", "text": "DE89370400440532013000"}))
     pairs.append(({"kind": "bic", "text": "GENODEM1GLS"}, {"kind": "iban", "text": "DE89370400440532013000", "validate_bban": False}))
+    # the same bank's registry entries read by two lookups at once (names, domestic codes, existence), and by the same lookup twice
+    seen = {}
+    for cc, code, bic in ctx.facts["banks"]:
+        if bic:
+            seen[bic] = seen.get(bic, 0) + 1
+    multi = sorted(b for b, n in seen.items() if n >= 2)
+    single = sorted(b for b, n in seen.items() if n == 1)
+    for bic in rng.sample(multi, min(len(multi), 3 if ctx.quick else 12)) + rng.sample(single, min(len(single), 2 if ctx.quick else 6)):
+        look = [{"kind": "runner", "fn": fn, "args": [enc(bic)]} for fn in ("bic_names", "bic_domestic", "bic_short_names")]
+        pairs.append((look[0], look[1]))
+        pairs.append((look[0], look[0]))
+        pairs.append((look[2], look[1]))
     # building for different countries at the same time (anything shared between calls of from_components / generate)
     gen = [{"kind": "generate", "cc": "DE", "bank": "37040044", "account": "0532013000"},
            {"kind": "generate", "cc": "GB", "bank": "NWBK", "account": "31926819", "branch": "601613"},
@@ -1300,7 +1371,8 @@ def schedules(ctx):
     random fine-grained schedules, for pairs of calls routed to the same shared objects."""
     pairs = c14_pairs(ctx)
     env = dict(os.environ)
-    env.update({"PYTHONPATH": os.environ.get("VERIF_REPO", "/repo"), "PYTHONHASHSEED": "0"})
+    env.update({"PYTHONPATH": os.environ.get("VERIF_REPO", "/repo"), "PYTHONHASHSEED": "0",
+                "VERIF_FACTS": os.path.join(os.path.dirname(HERE), "coq", "theories", "Gen", "facts.json")})
     # the pairs are independent: explore them in parallel processes (each process is still fully deterministic)
     nshards = max(1, min(12, len(pairs) // 4))
     procs = []
@@ -1355,7 +1427,7 @@ def history_orders(ctx):
             cs = []
         rng.shuffle(cs)
         cases += cs[: (150 if ctx.quick else 2500)]
-    cases += list(c12_targeted(ctx)) + twin_cases(ctx)
+    cases += list(c12_targeted(ctx)) + twin_cases(ctx) + property_reads(ctx)
     lines = ["\t".join([c.fn, *c.args]) for c in cases]
     lines = ["history_probe\tbegin"] + lines + ["history_probe\tend"]
     facts_path = os.path.join(os.path.dirname(HERE), "coq", "theories", "Gen", "facts.json")
@@ -1471,6 +1543,24 @@ def registry_unchanged(ctx):
     return {"ok": True, "cases": len(calls)}
 
 
+def property_reads(ctx):
+    """every public property of IBAN / BIC / BBAN objects read (properties are read-only in effect), among them objects of
+    countries the IBAN table has but pycountry's database has not, followed by BIC questions about those countries"""
+    rng = ctx.rng
+    out = []
+    odd = [cc for cc in countries(ctx) if cc not in ctx.facts["iso3166"]]
+    for cc in odd + rng.sample(countries(ctx), 4 if ctx.quick else 30):
+        v = valid_iban(ctx, cc)
+        bic = "AAAA" + cc + "AA"
+        out.append(Case("corr", "bic_new", [enc(bic), "0", "0"], "property-reads", True))
+        out.append(Case("self", "touch_all", ["iban", enc(v)], "property-reads", True))
+        out.append(Case("self", "touch_all", ["bban", enc(cc + v[4:])], "property-reads", True))
+        out.append(Case("self", "touch_all", ["bic", enc(bic)], "property-reads", True))
+        out.append(Case("corr", "bic_new", [enc(bic), "0", "0"], "property-reads", True))
+        out.append(Case("corr", "bic_is_valid", [enc(bic + "XXX")], "property-reads", True))
+    return out
+
+
 def c15_streams(ctx):
     # one long history inside a single implementation process, every call compared with the (pure) model
     rng = ctx.rng
@@ -1482,7 +1572,7 @@ def c15_streams(ctx):
     # method 88 and other account-dependent position rules: accounts with every third digit, in both orders
     for a in ["0092525253", "0011234560", "0099913003", "0052525259", "0012525259", "0092525253"]:
         cases.append(Case("corr", "algo_validate", [enc("DE:88"), enc(a), "-"], "history-88", True))
-    tail = list(c12_targeted(ctx)) + twin_cases(ctx)
+    tail = list(c12_targeted(ctx)) + twin_cases(ctx) + property_reads(ctx)
     rng.shuffle(cases)
     cases += tail
     for c in cases:
@@ -1582,6 +1672,27 @@ def c16_streams(ctx):
                 if a[2:4] < b_[2:4] and a[4:] > b_[4:]:
                     yield Case("prop", "spec_value_laws", ["iban", enc(a), "iban", enc(b_)], "value-laws-same-country", True)
                     yield Case("prop", "spec_value_laws", ["iban", enc(b_), "iban", enc(a)], "value-laws-same-country", True)
+    # values that some notion of "the same bank / the same account" would identify although their compact strings differ:
+    # BIC8 and BIC11 with branch XXX, IBANs of two countries with one BBAN, texts differing in case or white space only
+    for k, t in list(texts):
+        if k == "bic" and len(t) == 8:
+            for a, b_ in ((t, t + "XXX"), (t + "XXX", t)):
+                yield Case("prop", "spec_value_laws", ["bic", enc(a), "bic", enc(b_)], "value-laws-near-twins", True)
+                yield Case("prop", "spec_value_laws", ["bic", enc(a), "str", enc(b_)], "value-laws-near-twins", True)
+    for _ in range(4 if ctx.quick else 30):
+        b = random_bic(ctx, False)
+        yield Case("prop", "spec_value_laws", ["bic", enc(b), "bic", enc(b + "XXX")], "value-laws-near-twins", True)
+        yield Case("prop", "spec_value_laws", ["bic", enc(b + "XXX"), "bic", enc(b)], "value-laws-near-twins", True)
+    bylen = {}
+    for cc in countries(ctx):
+        bylen.setdefault(ctx.facts["iban_rows"][cc]["bban_length"], []).append(cc)
+    for g in [g for g in bylen.values() if len(g) >= 2][: (4 if ctx.quick else 40)]:
+        c1, c2 = rng.sample(g, 2)
+        b = random_bban(ctx, c1)
+        i1, i2 = c1 + iso_digits(c1, b) + b, c2 + iso_digits(c2, b) + b
+        yield Case("prop", "spec_value_laws", ["iban", enc(i1), "iban", enc(i2)], "value-laws-near-twins", True)
+        yield Case("prop", "spec_value_laws", ["bban", enc(c1 + b), "bban", enc(c2 + b)], "value-laws-near-twins", True)
+        yield Case("prop", "spec_value_laws", ["iban", enc(i1), "iban", enc(i1.lower())], "value-laws-near-twins", True)
     strs = [("str", t) for _k, t in texts[:20]] + [("str", ""), ("str", "A"), ("str", "a")]
     allv = texts + strs
     for _ in range(300 if ctx.quick else 6000):
